@@ -75,12 +75,13 @@ type world struct {
 	running   bool
 	restarts  int
 
-	issuedAddrs []issued
-	byAddr      map[string]int
-	foreignN    uint64
-	acctKeys    map[string]*hdkeychain.ExtendedKey // scope/account/branch -> branch xpub-capable key
-	violated    bool
-	pendingFail map[string]int
+	issuedAddrs      []issued
+	byAddr           map[string]int
+	foreignN         uint64
+	acctKeys         map[string]*hdkeychain.ExtendedKey // scope/account/branch -> branch xpub-capable key
+	violated         bool
+	pendingFail      map[string]int
+	convertRequested bool
 	// C16
 	paid                []paidRec
 	pendingPaid         []paidRec
